@@ -39,6 +39,21 @@ impl MapToCurveCPU<Jubjub> for Jubjub {
     }
 }
 
+/// verif-hooks: the intermediate points of the Jubjub map-to-curve for the input `u`, as computed
+/// by the three private stages of [`MapToCurveCPU::map_to_curve`]: the SvdW output on the
+/// Weierstrass model, its image on the Montgomery model and its image on the twisted Edwards
+/// model (before `from_xy` and the cofactor clearing). Read-only.
+#[cfg(feature = "verif-hooks")]
+#[allow(clippy::type_complexity)]
+pub fn verif_map_to_jubjub_steps(
+    u: &<Jubjub as CircuitCurve>::Base,
+) -> [(<Jubjub as CircuitCurve>::Base, <Jubjub as CircuitCurve>::Base); 3] {
+    let w = svdw_map_to_curve::<Jubjub>(u);
+    let m = weierstrass_to_montgomery::<Jubjub>(&w.0, &w.1);
+    let e = montgomery_to_edwards::<Jubjub>(&m.0, &m.1);
+    [w, m, e]
+}
+
 /// Map to Curve function.
 /// Adapted from halo2curves:
 /// <https://github.com/privacy-scaling-explorations/halo2curves/blob/9fff22c5f72cc54fac1ef3a844e1072b08cfecdf/src/hash_to_curve.rs#L197>
